@@ -33,6 +33,7 @@ open Olla.Spec.C18
 
 inductive Ev (α : Type) where
   | chunk (b : List α)
+  | last (b : List α)   -- the final bytes of a Content-Length body: net/http returns them together with io.EOF
   | eof
   | err
   | stallForever
@@ -89,6 +90,7 @@ def watchLoop {α : Type} (cancel : Cancel) (T : Int) (streaming : Bool) (ab : O
     if g < T ∧ abortedBefore ab (now + g) = false then
       match ev with
       | .chunk b => (watchLoop cancel T streaming ab (now + g) rest).push (emitChunk streaming (now + g) b)
+      | .last b => ⟨emitChunk streaming (now + g) b, some .complete, now + g⟩
       | .eof => ⟨[], some .complete, now + g⟩
       | .err => ⟨[], some .upstreamError, now + g⟩
       | .stallForever => giveUp cancel T ab now
@@ -127,6 +129,7 @@ def pollLoop {α : Type} (T : Int) (streaming : Bool) (ab : Option Abort) : Bool
     if abortedBefore ab (now + g) then blocked ab now else
     match ev with
     | .chunk b => (pollLoop T streaming ab (decide (T ≤ g)) (now + g) rest).push (emitChunk streaming (now + g) b)
+    | .last b => ⟨emitChunk streaming (now + g) b, some .complete, now + g⟩   -- n > 0 with io.EOF: written, then `return nil` — the timer is not looked at
     | .eof => ⟨[], some .complete, now + g⟩
     | .err => ⟨[], some .upstreamError, now + g⟩
     | .stallForever => blocked ab now
@@ -143,7 +146,7 @@ def ollaLoop {α : Type} (v : Variant) (T : Int) (streaming : Bool) (ab : Option
 
 /-- THE SWITCH. `.pinned` while /repo has no stall watchdog in olla's streamResponse; flip to `.fixed`
     when fixes/C18-olla-stall.patch (or an equivalent) is applied. Only the driver depends on it. -/
-def active : Variant := .fixed
+def active : Variant := .pinned
 
 /-! ### Production wiring of the profile -/
 
@@ -155,7 +158,7 @@ def wiredProfile (v : Variant) (configured : String) : String :=
   | .fixed => configured
 
 /-- Second switch (see fixes/NOTES-C18.md): flip when createProxyConfiguration passes the profile on. -/
-def activeWiring : Variant := .fixed
+def activeWiring : Variant := .pinned
 
 /-! ### Stream-or-buffer decision: the regenerated table of core.AutoDetectStreamingMode -/
 
@@ -175,6 +178,7 @@ def total {α : Type} : Sched α → Int
 def payload {α : Type} : Sched α → List α
   | [] => []
   | (_, .chunk b) :: rest => b ++ payload rest
+  | (_, .last b) :: rest => b ++ payload rest
   | _ :: rest => payload rest
 
 def outs {α : Type} (tr : Trace α) : List (Out α) := tr.map (·.2)
